@@ -90,6 +90,7 @@ class Sc:
         self.api = API(flavor, self.pool, net)
         self.timeouts = timeouts
         self.phase = {}
+        self.trace_yields = False
 
     def url(self, host="o.test", path="/x"):
         return f"{self.scheme}://{host}{path}"
@@ -101,6 +102,10 @@ class Sc:
         if is_async(self.flavor):
             async def trace(name, info):
                 _trace(ph, name, info, self)
+                if self.trace_yields:
+                    # a caller's trace callback that awaits something: one more suspension point - between an operation
+                    # and whatever the library does with its result - at which a cancellation can arrive
+                    await anyio.lowlevel.checkpoint()
         else:
             def trace(name, info):
                 _trace(ph, name, info, self)
@@ -137,6 +142,10 @@ async def victim_body(sc: Sc, shape: str, call="victim", host="o.test"):
         body = api.body([b"a" * 700, b"b" * 700, b"c" * 700])
         r = await api.request("POST", sc.url(host), headers=hdrs, content=body, extensions=sc.ext(call))
         return r.status, r.content[:40]
+    if shape == "post-big":
+        # larger than the HTTP/2 initial window: the upload has to wait for credit, i.e. to READ in the middle of sending
+        r = await api.request("POST", sc.url(host), headers=hdrs, content=b"B" * 200_000, extensions=sc.ext(call))
+        return r.status, r.content[:40]
     if shape == "stream-partial":
         resp, cm = await api.open("GET", sc.url(host), headers=hdrs, extensions=sc.ext(call))
         try:
@@ -164,14 +173,14 @@ async def hold_body(sc: Sc, call: str, host: str, hold: float):
     return resp.status, b"".join(chunks)[:40]
 
 
-CONTEXTS = ["alone", "queued-behind-same", "queued-behind-other", "victim-queued", "shared-h2", "co-joins-connecting",
+CONTEXTS = ["alone", "alone-yielding-trace", "queued-behind-same", "queued-behind-other", "victim-queued", "shared-h2", "co-joins-connecting",
             "victim-joins-connecting"]
 
 
 def contexts_for(ctype: str, flavor: str):
     if not is_async(flavor):
         return ["alone"]
-    out = ["alone", "queued-behind-same", "queued-behind-other", "victim-queued"]
+    out = ["alone", "alone-yielding-trace", "queued-behind-same", "queued-behind-other", "victim-queued"]
     if TYPES[ctype].get("http2") and ctype != "maybe-h2":
         out.append("shared-h2")
     if TYPES[ctype].get("http2") and TYPES[ctype]["scheme"] == "https":
@@ -185,9 +194,12 @@ async def run_injected(flavor: str, ctype: str, shape: str, context: str, inject
 
     inject: None | ("fault", op_index, kind) | ("cancel", style, k)
     Returns dict with sc, outcomes, K (victim yields), ops, phase_at_injection."""
-    maxc = 2 if context in ("alone", "shared-h2") else 1
+    maxc = 2 if context in ("alone", "alone-yielding-trace", "shared-h2") else 1
     sc = Sc(ctype, flavor, max_connections=maxc, **(sc_kw or {}))
     net = sc.net
+    if context == "alone-yielding-trace":
+        sc.trace_yields = True
+        context = "alone"
     if context in ("co-joins-connecting", "victim-joins-connecting"):
         net.latency = lambda kind, idx: 0.3 if kind in ("connect", "start_tls") else 0.0
     res = {"sc": sc, "outcomes": {}, "K": 0, "inj_phase": None, "fired": False}
